@@ -27,6 +27,7 @@ ParseInputs == { PKG \o <<84,121,47,110,115,47,110,64,49,63,107,61,118,35,115>>,
                  PKG \o <<116,47>>,                                                       \* pkg:t/     (no name)
                  PKG \o <<233,47,110>>,                                                   \* pkg:e-acute/n (non-ASCII type)
                  \* a defect after a well-formed type (the conversion may or may not have been tried), and two defects at once
+                 PKG \o <<116,47,110,63,101,61,38,107,61,118>>,                           \* pkg:t/n?e=&k=v (an empty-valued qualifier)
                  PKG \o <<116,47,110,63,107>>,                                            \* pkg:t/n?k      (qualifier without '=')
                  PKG \o <<116,47,110,35,37,56,48>>,                                       \* pkg:t/n#%80    (bad escape in the subpath)
                  PKG \o <<116,63,107,61,118>>,                                            \* pkg:t?k=v      (no name, type well-formed)
